@@ -184,29 +184,31 @@ pub fn apply_op(buf: &mut [u8], op: &Op) -> Res<(usize, usize)> {
                 })
             }),
             Op::Realloc { t, len, rep } => with_tag!(*t, T, P, B, H, {
-                let s = st.realloc_with_repetition::<T>(*len, *rep)?;
+                let s = if *rep == 0 && len % 2 == 0 { st.realloc_first::<T>(*len)? } else { st.realloc_with_repetition::<T>(*len, *rep)? };
                 assert_eq!(s.len(), *len, "realloc returned a slice of the wrong length");
                 Ok((s.as_ptr() as usize - base, 0))
             }),
             Op::Write { t, rep, seed } => with_tag!(*t, T, P, B, H, {
-                let s = st.get_bytes_with_repetition_mut::<T>(*rep)?;
+                let s = if *rep == 0 && seed % 2 == 0 { st.get_first_bytes_mut::<T>()? } else { st.get_bytes_with_repetition_mut::<T>(*rep)? };
                 let new = pat(*seed, s.len());
                 s.copy_from_slice(&new);
                 Ok((s.as_ptr() as usize - base, 0))
             }),
             Op::WriteTyped { t, rep, size, seed } => with_tag!(*t, T, P, B, H, {
                 with_size!(*size, S, {
-                    let v = st.get_value_with_repetition_mut::<P<S>>(*rep)?;
+                    let v = if *rep == 0 && seed % 2 == 0 { st.get_first_value_mut::<P<S>>()? } else { st.get_value_with_repetition_mut::<P<S>>(*rep)? };
                     let new = pat(*seed, S);
                     v.0.copy_from_slice(&new);
                     Ok((v as *mut P<S> as usize - base, 0))
                 })
             }),
             Op::PackVar { t, rep, data, borsh } => with_tag!(*t, T, P, B, H, {
-                if *borsh {
-                    st.pack_variable_len_value_with_repetition(&B { data: data.clone() }, *rep)?;
-                } else {
-                    st.pack_variable_len_value_with_repetition(&H::new(data.clone()), *rep)?;
+                let first = *rep == 0 && data.len() % 2 == 0;
+                match (*borsh, first) {
+                    (true, true) => st.pack_first_variable_len_value(&B { data: data.clone() })?,
+                    (true, false) => st.pack_variable_len_value_with_repetition(&B { data: data.clone() }, *rep)?,
+                    (false, true) => st.pack_first_variable_len_value(&H::new(data.clone()))?,
+                    (false, false) => st.pack_variable_len_value_with_repetition(&H::new(data.clone()), *rep)?,
                 }
                 // offset of the slot: look it up again (read-only)
                 let s = st.get_bytes_with_repetition::<T>(*rep)?;
@@ -245,7 +247,7 @@ pub fn get_bytes_view(buf: &mut [u8], t: usize, rep: usize, view: View) -> Res<(
                 }
                 View::Borrowed => {
                     let st = TlvStateBorrowed::unpack(buf)?;
-                    let s = st.get_bytes_with_repetition::<T>(rep)?;
+                    let s = if rep == 0 { st.get_first_bytes::<T>()? } else { st.get_bytes_with_repetition::<T>(rep)? };
                     Ok((offset_in(buf, s), s.to_vec()))
                 }
                 View::Owned => {
@@ -277,7 +279,7 @@ pub fn get_typed_view(buf: &mut [u8], t: usize, rep: usize, size: usize, view: V
                     View::Borrowed => {
                         let base = buf.as_ptr() as usize;
                         let st = TlvStateBorrowed::unpack(buf)?;
-                        let v = st.get_value_with_repetition::<P<S>>(rep)?;
+                        let v = if rep == 0 { st.get_first_value::<P<S>>()? } else { st.get_value_with_repetition::<P<S>>(rep)? };
                         Ok((v as *const P<S> as usize - base, v.0.to_vec()))
                     }
                     View::Owned => {
@@ -329,7 +331,7 @@ pub fn get_var_borsh(buf: &mut [u8], t: usize, rep: usize) -> Res<Vec<u8>> {
     catch(|| -> Result<Vec<u8>, ProgramError> {
         with_tag!(t, T, P, B, H, {
             let st = TlvStateBorrowed::unpack(buf)?;
-            let v = st.get_variable_len_value_with_repetition::<B>(rep)?;
+            let v = if rep == 0 { st.get_first_variable_len_value::<B>()? } else { st.get_variable_len_value_with_repetition::<B>(rep)? };
             Ok(v.data)
         })
     })
@@ -693,6 +695,9 @@ impl<'a> Mon<'a> {
                                 "observed": format!("{:?}", g), "expected_offset": o.offset_of(i), "expected": emit::hex(v)})),
                         );
                     }
+                }
+                if <TlvStateBorrowed as TlvState>::get_base_len() != 12 {
+                    self.rep.violate("base-len", "get_base_len is not 12", "{}".into());
                 }
                 for t in 0..NTAGS {
                     let c = o.count(t);
